@@ -17,6 +17,10 @@ import (
 // relative round-off error in big.Float precision numbers
 var dpSafeEpsilon = 1e-15
 
+// exactPrec is a big.Float precision at which the orientation determinant of
+// any three finite float64 points is computed without rounding.
+const exactPrec = 4200
+
 // OrientationIndex returns the index of the direction of point relative
 // to a vector specified by vectorOrigin-vectorEnd
 //
@@ -36,6 +40,15 @@ func OrientationIndex(vectorOrigin, vectorEnd, point geom.Coord) orientation.Typ
 	}
 
 	var dx1, dy1, dx2, dy2 big.Float
+
+	// A zero big.Float takes the 53-bit precision of the first float64 it is
+	// set to, which would round every operation below like ordinary float64
+	// arithmetic. Every finite float64 is a multiple of 2^-1074 below 2^1024,
+	// so differences need at most 2099 bits and the difference of two products
+	// of differences at most 4199 bits to be exact.
+	for _, f := range []*big.Float{&dx1, &dy1, &dx2, &dy2} {
+		f.SetPrec(exactPrec)
+	}
 
 	// normalize coordinates
 	dx1.SetFloat64(vectorEnd[0]).Add(&dx1, big.NewFloat(-vectorOrigin[0]))
